@@ -28,7 +28,7 @@ func init() {
 		Level: "exploration",
 		Race:  true,
 		Rule: "a group = one CSV text drawn from a grammar (plain/quoted fields, embedded separators, line breaks and quotes, empty fields, blank lines, ragged rows, comment lines, CR LF endings, missing final newline, and malformed quoting) + one option set (reader comma, comment, lazy quotes, trim, fields per record, reuse record; writer comma, CRLF; skipped lines 0..records+2; closing option); " +
-			"every group is pushed through EVERY destination kind of the consumer (record kinds and byte kinds; record tables fresh, pre-populated shorter / equal / longer / with spare capacity, typed-nil; kinds the codec does not document) and EVERY source kind of the producer (text kinds and record-table kinds), each on a scripted stream (1-byte / random chunks, <= 50 zero-length reads, data with EOF, fault at an offset; for some consumes a reader without Close or a *bytes.Buffer / *bytes.Reader / *strings.Reader), some with earlier and later calls on the same codec instance; one text in 40 has 120..320 records (4..12 KiB). " +
+			"every group is pushed through EVERY destination kind of the consumer (record kinds and byte kinds; record tables fresh, pre-populated shorter / equal / longer / with spare capacity, typed-nil; kinds the codec does not document) and EVERY source kind of the producer (text kinds and record-table kinds), each on a scripted stream (1-byte / random chunks, <= 50 zero-length reads, data with EOF, fault at an offset; for some consumes a reader without Close or a *bytes.Buffer / *bytes.Reader / *strings.Reader), some with earlier and later calls on the same codec instance; one text in 40 has 120..320 records (4..12 KiB), half of those a count at or next to 32, 64, 128, 256, 257, 300, 512, 513, and half of the large texts are malformed, mostly in one of their last three records (a codec that moves records in batches would deliver the well-formed batches before the parser's error). " +
 			"one produce in 4 writes into the caller's own *bufio.Writer (4096 bytes, which encoding/csv adopts as its buffer, or 16 bytes) over the scripted sink or into a *bytes.Buffer; a CSVReader source that hands out one reused slice; " +
 			"one group in 20 makes every call while two other goroutines use the SAME codec instance with their own texts and objects (joined with a WaitGroup, each judged against its own reference; the race detector watches); " +
 			"caller-set LazyQuotes / TrimLeadingSpace / ReuseRecord on a *csv.Reader source and UseCRLF on a *csv.Writer destination (outcome must be that of one of the two readings; classed); one group in 8 also calls with no reader, no writer, no data and a typed-nil pointer source. " +
